@@ -41,7 +41,7 @@ def verify(reg, quals, verbose=True, cex_bound=None, **kw):
         for name, fn in getattr(reg, "static_checks", []):
             try: okk, detail = fn(reg)
             except Exception as e: undecided.append((name, f"static check could not run: {type(e).__name__}: {e}")); continue
-            o = Obligation(f"{name}", "static", [], z3.BoolVal(bool(okk))); o.detail = detail; allobs.append(o)
+            o = Obligation(f"{name}", "link" if ":link." in name else "static", [], z3.BoolVal(bool(okk))); o.detail = detail; allobs.append(o)
     gen = time.time() - t0
     discharge_all(allobs, **kw)
     if verbose:
